@@ -82,10 +82,10 @@ def obligations(chk, prop):
                         return
                     want = {L: 1, R: 0} if t else {L: 0, R: 1}
                 okc = all(len(got.get(w, [])) == n for w, n in want.items()) and set(got) <= set(want)
-                oki = all(x is res['item'] for v in got.values() for x in v)
+                oki = all(common.same_value(ex_, x, res['item']) for v in got.values() for x in v)
                 if not (okc and oki):
                     o.verdict = 'violated'
-                    o.detail = 'delivered: %s (same item: %s), expected %s' % ({w: len(v) for w, v in got.items()}, oki, want)
+                    o.detail = 'delivered: %s (same item: %s), expected %s%s' % ({w: len(v) for w, v in got.items()}, oki, want, '' if oki else ' - first difference: %s' % [common.explain_diff(ex_, x, res['item']) for v in got.values() for x in v])
                     o.model = {'delivered': {w: len(v) for w, v in got.items()}, 'expected': want}
             ex.explore(run, on_end)
         if o.verdict == 'violated':
@@ -107,7 +107,7 @@ def confirm(chk, o, prop, st, meth):
     devs = False
     for wrapper, want in ((('tee', (2, 2)),) if st == 'Tee' else (('or_true', (2, 0)), ('or_false', (0, 2)))):
         path = os.path.join(d, '%s-%s-delivery-%s.script' % (prop, st.lower(), wrapper))
-        lines = ['mode events', 'wrapper %s' % wrapper, 'bg 0', 'own 1', 'ev step 0 started r=-', 'ev step 0 skipped r=-']
+        lines = ['mode events', 'wrapper %s' % wrapper, 'bg 1', 'own 1', 'ev bg 0 started r=-', 'ev bg 0 skipped r=-']
         res, out = replay.run_script('\n'.join(lines) + '\n', path)
         chk.replays += 1
         chk.replay_files.append(path)
@@ -115,7 +115,13 @@ def confirm(chk, o, prop, st, meth):
             o.verdict = 'inconclusive'
             o.detail += ' | native replay failed: %s' % out[-200:]
             return
-        if (res.get('left_events'), res.get('right_events')) != want:
+        left = [ln[5:] for ln in out.splitlines() if ln.startswith('LEFT ')]
+        right = [ln[6:] for ln in out.splitlines() if ln.startswith('RIGHT ')]
+        if wrapper == 'tee' and left != right:
+            devs = True
+            o.replay = path
+            o.detail += ' | reproduced natively: the two writers of the real Tee received different events: left %s, right %s (%s)' % (left, right, path)
+        elif (res.get('left_events'), res.get('right_events')) != want:
             devs = True
             o.replay = path
             o.detail += ' | reproduced natively: real %s delivered left=%s right=%s, specification %s (%s)' % (
